@@ -375,7 +375,7 @@ class History:
         self.emit('EntityMethod', struct.pack('<II', eid, i) + binstream(data), 'call')
 
     # ---- nested
-    def nested(self, fault_cut=False):
+    def nested(self, fault_cut=False, only=None):
         if 'NestedProperty' not in self.ids or self.dialect == 'wowp': return None if fault_cut else self.update_prop()
         cands = []
         for e, s in self.ents.items():
@@ -384,6 +384,7 @@ class History:
             for i, (n, t) in enumerate(props):
                 if n in s['client'] and isinstance(s['client'][n][1], (list, dict)) and s['client'][n][0] == t:
                     cands.append((e, i, n, t))
+        if only is not None: cands = [c for c in cands if (c[0], c[1]) == only]
         if not cands: return self.update_prop()
         eid, pi, pname, ptype = self.rng.choice(cands)
         s = self.ents[eid]; props = self.view.exposed(s['type'])
@@ -447,6 +448,26 @@ class History:
         if effect[0] == 'setfield': effect[1][effect[2]] = effect[3]
         elif effect[0] == 'setitem': effect[1][effect[2]] = effect[3]
         else: effect[1][effect[2]:effect[3]] = effect[4]
+
+    def player_nested(self):
+        """a property that the BASE-player packet delivers (BASE_AND_CLIENT: it sits in the base table) and that is then sent again as an ordinary
+        update and addressed by a nested packet: the nested change belongs to the client value, whatever else still holds an older copy"""
+        if 'NestedProperty' not in self.ids or self.dialect in ('wowp', 'wot') or 'BasePlayerCreate' not in self.ids: return self.nested()
+        order = [e for e in self.ents if 0 <= e < 2 ** 31]; self.rng.shuffle(order)
+        for eid in order:
+            tname = self.ents[eid]['type']; basen = set(n for n, _ in self.view.base(tname)); props = self.view.exposed(tname)
+            for i, (n, t) in enumerate(props):
+                tt = t
+                while tt[0] == 'user': tt = tt[1]
+                if n in basen and tt[0] in ('array', 'dict'):
+                    self.base_player(eid)
+                    for _ in range(4):
+                        v = self.val(t)
+                        if v: break
+                    self.emit('EntityProperty', struct.pack('<II', eid, i) + binstream(gen_types.wire_of(t, v)), 'update')
+                    self.ents[eid]['client'][n] = (t, v)
+                    return self.nested(only=(eid, i))
+        return self.nested()
 
     # ---- poses
     def fbits(self): return self.rng.choice(gen_types.F32_BITS + [self.rng.randrange(2 ** 32)] * 2)
@@ -577,7 +598,7 @@ class History:
         for _ in range(self.rng.randrange(1, 5)): self.create_entity()
         if self.dialect == 'wowp':
             ops = [(self.update_prop, 10), (self.call_method, 10), (self.position, 5), (self.noise, 10), (self.base_player, 3), (lambda: self.call_method(True), self.garbage_w)]
-        else: ops = [(self.create_entity, 6), (self.update_prop, 22), (self.call_method, 18), (self.nested, 22), (self.position, 8),
+        else: ops = [(self.create_entity, 6), (self.update_prop, 22), (self.call_method, 18), (self.nested, 22), (self.player_nested, 4), (self.position, 8),
                (self.player_position, 6), (self.pose_recreate_pose, 3), (self.noise, 8), (self.base_player, 1), (self.cell_player, 1), (lambda: self.call_method(True), self.garbage_w)]
         tot = sum(w for _, w in ops)
         while len(self.packets) < n:
